@@ -18,7 +18,7 @@ import (
 
 // C06 — version negotiation.  One request line per session:
 //
-//	<sid> <cmax> <r1> <r2> [T<ms>] [C] [K1] [K2] [LA] [V<g><n><l>] [EN0|ES0|EN1|ES1|EN2|ES2]
+//	<sid> <cmax> <r1> <r2> [T<ms>] [C] [K1] [K2] [LA] [V<g><n><l>] [EN0|ES0|EN1|ES1|EN2|ES2] [P=<step>,<step>,…]
 //
 // cmax: 1|2 (WithVersion).  r1/r2: how the scripted reader answers GET_SUPPORTED_VERSION /
 // SET_PROTOCOL_VERSION:
@@ -44,6 +44,13 @@ import (
 // SET_PROTOCOL_VERSION is unanswered (2).  The reader goes on reading while it waits before an
 // answer, so a frame written too early is recorded before the answer goes out.
 //
+// P=…: the traffic after negotiation is this script instead of the default one.  step ::= a (the
+// reader sends a KEEPALIVE and waits for the ack) | <api><answer>: the k-th request (type 21+k%5 =
+// DELETE/START/STOP/ENABLE/DISABLE_ROSPEC, payload = be32(k+1)) is sent through api M (SendMessage),
+// F (SendFor with the generated structs) or N (SendNoWait) and the reader answers it with
+// S (expected response, status 0) | X<st> (expected response, status st) | E<st> (ERROR_MESSAGE,
+// status st) | W (a response of another type) | N (nothing: the caller's context ends the wait).
+//
 // When Connect proceeds: GET_READER_CONFIG (header only, SendMessage), KEEPALIVE from the reader,
 // GET_READER_CAPABILITIES (1 byte payload, SendMessage); with LA: KEEPALIVE, GET_READER_CONFIG,
 // KEEPALIVE, GET_READER_CAPABILITIES.  Each step waits for the previous one to complete.  The
@@ -51,12 +58,12 @@ import (
 //
 // Answer line:
 //
-//	<sid> <proceeds|fails|panic|hang> <cver> <frames before the outcome> <frames after> <req1> <req2> <ack> <early>
+//	<sid> <proceeds|fails|panic|hang> <cver> <frames before the outcome> <frames after> <req1> <req2> <ack> <early> <cver at the end>
 //
 // "before": for a Connect that proceeds, the frames the reader had read when it sent its last answer
 // to a negotiation message (none without negotiation); otherwise all frames read when Connect ended.
-// frames ::= - | f,f,…  f = <version bits>:<type>:<hex payload>.  cver = Client.version at
-// the end.  req1/req2 = ok|err|- ; ack = ok|missing|-.
+// frames ::= - | f,f,…  f = <version bits>:<type>:<hex payload>.  cver = Client.version when
+// Connect proceeded / returned; the last field is Client.version at the end of the session.  req1/req2 = ok|err|- ; ack = ok|missing|-.
 //
 // The scripted reader builds and parses frames with its own code (c06Put/c06Read).
 
@@ -124,10 +131,12 @@ type c06Peer struct {
 	r1, r2         string
 	closeOnSilence bool
 	k1, k2         bool
-	vg, vn, vl     int    // header versions: greeting, during negotiation, afterwards (-1: echo / 1)
-	early          func() // starts the early caller (once)
-	earlyAt        int    // 1: when GET_SUPPORTED_VERSION arrives, 2: when SET_PROTOCOL_VERSION arrives
-	replyType2     int    // if non-zero, GET_READER_CONFIG is answered with a header-only frame of this type
+	vg, vn, vl     int           // header versions: greeting, during negotiation, afterwards (-1: echo / 1)
+	early          func()        // starts the early caller (once)
+	earlyAt        int           // 1: when GET_SUPPORTED_VERSION arrives, 2: when SET_PROTOCOL_VERSION arrives
+	appReact       []string      // answers to the application requests of a traffic script, in order
+	appSeen        chan struct{} // one token per application request of a traffic script read
+	replyType2     int           // if non-zero, GET_READER_CONFIG is answered with a header-only frame of this type
 
 	pmu       sync.Mutex
 	pendingID uint32
@@ -278,6 +287,29 @@ func (p *c06Peer) run() {
 		case 3:
 			p.put(p.lver(f.ver), 13, f.id, c06Status(0))
 		case 64: // ENABLE_EVENTS_AND_REPORTS has no response
+		case 21, 22, 23, 24, 25:
+			p.mu.Lock()
+			r := "S"
+			if len(p.appReact) > 0 {
+				r, p.appReact = p.appReact[0], p.appReact[1:]
+			}
+			p.mu.Unlock()
+			st := 0
+			if len(r) > 1 {
+				st, _ = strconv.Atoi(r[1:])
+			}
+			switch r[0] {
+			case 'S', 'X':
+				p.put(p.lver(f.ver), f.typ+10, f.id, c06Status(st))
+			case 'E':
+				p.put(p.lver(f.ver), 100, f.id, c06Status(st))
+			case 'W':
+				p.put(p.lver(f.ver), 12, f.id, c06Status(0))
+			}
+			select {
+			case p.appSeen <- struct{}{}:
+			default:
+			}
 		default:
 			p.put(p.lver(f.ver), 100, f.id, c06Status(109))
 		}
@@ -296,6 +328,7 @@ func c06Session(line string) string {
 	k1, k2, ackFirst := false, false, false
 	earlyKind, earlyAt := "", 0
 	vg, vn, vl := 1, 2, -1
+	var traffic []string
 	for _, o := range f[4:] {
 		switch o {
 		case "K1":
@@ -306,6 +339,9 @@ func c06Session(line string) string {
 			ackFirst = true
 		case "EN0", "ES0", "EN1", "ES1", "EN2", "ES2":
 			earlyKind, earlyAt = o[:2], int(o[2]-'0')
+		}
+		if strings.HasPrefix(o, "P=") {
+			traffic = strings.Split(o[2:], ",")
 		}
 		if len(o) == 4 && o[0] == 'V' {
 			vg, vn, vl = int(o[1]-'0'), int(o[2]-'0'), int(o[3]-'0')
@@ -322,7 +358,7 @@ func c06Session(line string) string {
 	// nothing the scripted reader does may block for good, whatever the client does
 	_ = pConn.SetDeadline(time.Now().Add(10 * time.Second))
 	peer := &c06Peer{conn: pConn, r1: f[2], r2: f[3], closeOnSilence: closeOnSilence, k1: k1, k2: k2, vg: vg, vn: vn, vl: vl,
-		acks: make(chan c06Frame, 4), done: make(chan struct{})}
+		acks: make(chan c06Frame, 4), done: make(chan struct{}), appSeen: make(chan struct{}, 64)}
 
 	opts := []ClientOpt{WithVersion(VersionNum(cmax)), WithLogger(nil)}
 	if timeout > 0 {
@@ -395,6 +431,7 @@ func c06Session(line string) string {
 		outcome = "hang"
 	}
 	before := peer.seen()
+	cverNeg := int(client.version) // ready is closed or Connect has returned: negotiate's write happened before
 	if outcome == "proceeds" {
 		// negotiation is over, on the wire, when the reader has sent its last answer to a
 		// negotiation message: what it had read by then came before, whatever it reads later came
@@ -437,6 +474,11 @@ func c06Session(line string) string {
 				early = "blocked"
 			}
 		}
+		if traffic != nil {
+			req1 = strconv.Itoa(c06Traffic(client, peer, traffic, keepAlive))
+			cancel()
+			goto afterTraffic
+		}
 		if ackFirst {
 			keepAlive(776)
 		}
@@ -447,6 +489,7 @@ func c06Session(line string) string {
 		req2 = cls(t2, MsgGetReaderCapabilitiesResponse, err)
 		cancel()
 	}
+afterTraffic:
 	all := peer.seen()
 
 	_ = client.Close()
@@ -464,8 +507,64 @@ func c06Session(line string) string {
 	}
 	// Connect has returned or the client is closed and both loops have lost their connection
 	cver := int(client.version)
-	return fmt.Sprintf("%s %s %d %s %s %s %s %s %s", sid, outcome, cver, c06Frames(before),
-		c06Frames(all[len(before):]), req1, req2, ack, early)
+	return fmt.Sprintf("%s %s %d %s %s %s %s %s %s %d", sid, outcome, cverNeg, c06Frames(before),
+		c06Frames(all[len(before):]), req1, req2, ack, early, cver)
+}
+
+// c06Traffic runs a traffic script (see the header comment); returns the number of steps done
+func c06Traffic(client *Client, peer *c06Peer, script []string, keepAlive func(uint32)) int {
+	k := 0
+	for i, st := range script {
+		if st == "a" {
+			keepAlive(uint32(770 + i))
+			continue
+		}
+		if len(st) < 2 {
+			return i
+		}
+		typ, id := 21+k%5, uint32(k+1)
+		k++
+		payload := []byte{byte(id >> 24), byte(id >> 16), byte(id >> 8), byte(id)}
+		peer.mu.Lock()
+		peer.appReact = append(peer.appReact, st[1:])
+		peer.mu.Unlock()
+		wait := 3 * time.Second
+		if st[1] == 'N' {
+			wait = 40 * time.Millisecond
+		}
+		ctx, cancel := context.WithTimeout(context.Background(), wait)
+		switch st[0] {
+		case 'M':
+			_, _, _ = client.SendMessage(ctx, MessageType(typ), payload)
+		case 'F':
+			var out Outgoing
+			var in Incoming
+			switch typ {
+			case 21:
+				out, in = &DeleteROSpec{ROSpecID: id}, &DeleteROSpecResponse{}
+			case 22:
+				out, in = &StartROSpec{ROSpecID: id}, &StartROSpecResponse{}
+			case 23:
+				out, in = &StopROSpec{ROSpecID: id}, &StopROSpecResponse{}
+			case 24:
+				out, in = &EnableROSpec{ROSpecID: id}, &EnableROSpecResponse{}
+			default:
+				out, in = &DisableROSpec{ROSpecID: id}, &DisableROSpecResponse{}
+			}
+			_ = client.SendFor(ctx, out, in)
+		case 'N':
+			m, _ := NewByteMessage(MessageType(typ), payload)
+			_ = client.SendNoWait(ctx, m)
+		}
+		cancel()
+		// the request has been read by the reader (or never will be)
+		select {
+		case <-peer.appSeen:
+		case <-time.After(3 * time.Second):
+			return i
+		}
+	}
+	return len(script)
 }
 
 // c06Delivered reports whether a header-only frame of type typ that carries the id of an
